@@ -60,6 +60,7 @@ type Conn struct {
 	rdone       bool
 	rerr        error
 	RecordReads bool
+	rdeadline   int64 // unix nano, 0 = none; set by SetReadDeadline / SetDeadline
 
 	// write side (touched only by the writing goroutine; observers take wmu)
 	wmu       sync.Mutex
@@ -144,7 +145,13 @@ func (c *Conn) Read(p []byte) (int, error) {
 			return 0, net.ErrClosed
 		default:
 		}
+		var rdl <-chan time.Time
+		if d := atomic.LoadInt64(&c.rdeadline); d != 0 {
+			rdl = time.After(time.Until(time.Unix(0, d)))
+		}
 		select {
+		case <-rdl:
+			return 0, timeoutErr{}
 		case ch := <-c.in:
 			if ch.delay > 0 {
 				select {
@@ -301,8 +308,20 @@ func (a addr) String() string  { return string(a) }
 
 func (c *Conn) LocalAddr() net.Addr                { return addr("local:" + c.Name) }
 func (c *Conn) RemoteAddr() net.Addr               { return addr("peer:" + c.Name) }
-func (c *Conn) SetDeadline(t time.Time) error      { c.wdeadline = t; return nil }
-func (c *Conn) SetReadDeadline(t time.Time) error  { return nil }
+func (c *Conn) SetDeadline(t time.Time) error {
+	c.wdeadline = t
+	return c.SetReadDeadline(t)
+}
+
+// SetReadDeadline is honoured like a socket does: a Read that has nothing to return by then fails with a timeout.
+func (c *Conn) SetReadDeadline(t time.Time) error {
+	if t.IsZero() {
+		atomic.StoreInt64(&c.rdeadline, 0)
+	} else {
+		atomic.StoreInt64(&c.rdeadline, t.UnixNano())
+	}
+	return nil
+}
 func (c *Conn) SetWriteDeadline(t time.Time) error { c.wdeadline = t; return nil }
 
 // Listener hands scripted connections to an Acceptor.
